@@ -168,6 +168,18 @@ def declared_total_rules(F, rep, P):
                 if strip_generics(callee_name(t)) == "encode::exact_div":
                     cl_ = _divisor_class(F, body, t["a"][1])
                     cl_ = {"bytes_per_sample"} if "bytes_per_sample" in cl_ else cl_
+                    if not cl_ and body.kind == "Closure":
+                        # the divisors are the elements of a list the division is folded over: classify each element
+                        for bb2 in [b] + all_cl(b):
+                            for bl2 in bb2.blocks:
+                                for s2 in bl2["s"]:
+                                    if s2["rv"]["r"] == "agg" and s2["rv"].get("ak") == "array" and "u64" in bb2.local_ty(s2["d"]["l"]):
+                                        for o2 in s2["rv"]["ops"]:
+                                            c2 = _divisor_class(F, bb2, o2)
+                                            c2 = {"bytes_per_sample"} if "bytes_per_sample" in c2 else c2
+                                            if c2 and c2 not in got:
+                                                got.append(c2)
+                        continue
                     if cl_ not in got:
                         got.append(cl_)
         rep.check(P + ".len", "%s: declared total is divided exactly by %s" % (path, " and by ".join("the channel count" if w == {"arg:u8"} else "bytes per sample" for w in want)),
